@@ -1,6 +1,7 @@
 """C05 — Raft vote, term, membership and node addresses are durable, never regress."""
 from ..core import Case
 from ..runner import Prop, ModelRun
+from . import log_gen
 
 ADDRS = ["127.0.0.1:9848", "10.0.0.2:9848", "h", "node-3.cluster.local:19848", "[::1]:9848"]
 
@@ -97,6 +98,12 @@ class C05(Prop):
         "first saves into a new file (sizes around the new-file threshold); long-then-short records. Oracle = record "
         "of the last saved value per field; every `info` after a reopen must return it. non-trivial = at least one "
         "save and one reopen"))]
+    models.append(ModelRun("logstore", log_gen.gen_store_hardstate, lambda c: any(o.startswith("hs") for o in c.ops) and "init" in c.ops,
+                           spec_needs_impl=True, rule=(
+        "the same facts at the level raft sees them: term and vote saved through the real FileStore::save_hard_state and "
+        "read back through get_initial_state - with nothing in the log yet (a fresh node that is asked for its vote), with "
+        "entries, after the log was cut back to nothing, across reopens. Oracle = the hard state saved last. "
+        "non-trivial = a save and a read")))
     trusted_base = [
         "hand model RNacos/Model/IndexFile.lean of raftindex.rs (file bytes, init, write_index, write_last_applied_log) "
         "and of the quick-protobuf encoding of RaftIndex; the protobuf round trip is a hypothesis of the theorems "
